@@ -653,6 +653,10 @@ class Sim:
                 s = self.statics.get(op["static"])
                 return s if s is not None else UNK
             if "fn" in op:
+                # a trait method named as a value (`Value::clone`): the type spells the impl, `{<T as Trait>::m}`
+                mm = re.search(r"\{(<.+ as .+>::[A-Za-z_0-9]+)\}$", op.get("ty", ""))
+                if mm and self.find_fn(mm.group(1)) is not None:
+                    return FnItem(mm.group(1))
                 return FnItem(op["fn"])
             if op.get("zst"):
                 return Tup([])
@@ -1080,10 +1084,16 @@ class Sim:
             # a trait method called on a type parameter (`A::expect(self)`), inside a function inlined with a concrete
             # argument for it: the impl for that type
             conc = self._tyenv[-1].get(c0["substs"][0])
+            # the trait's own type arguments must be the impl's (`i64: PartialEq<i64>` is not `impl PartialEq<Value> for i64`)
+            targs = [self._tyenv[-1].get(x, x) for x in c0["substs"][1:] if not x.startswith("'")]
+            want_full = c0["trait"] + ("<%s>" % ", ".join(targs) if targs else "")
+            local_trait = c0.get("crate") in [cr.name for cr in self.crates]
             if conc is not None:
                 for cr in self.crates:
                     hit = [g for g in cr.fns if g.impl_trait == c0["trait"] and g.self_ty == conc
-                           and g.path.endswith("::" + c0.get("method", "?")) and g.kind != "closure"]
+                           and g.path.endswith("::" + c0.get("method", "?")) and g.kind != "closure"
+                           and (local_trait or
+                                (g.d.get("impl_trait_full") or "").replace("&'a ", "&").endswith(want_full))]
                     if len(hit) == 1:
                         t = dict(t)
                         t["callee"] = dict(c0, resolved=hit[0].path, resolved_kind="Item", resolved_crate=cr.name,
@@ -1411,6 +1421,20 @@ class Sim:
         cargs = [f, acc, items[k]] if isinstance(f, Closure) else [acc, items[k]]
         return self._inline_multi(fn, env, bb, t, path, depth, ff, cargs, after)
 
+    def _nth(self, fn, env, bb, t, path, depth, cont, itref, next_fn, n):
+        """Iterator::nth(n) over a local iterator held behind `itref`: n + 1 calls of next(), the last one's answer."""
+        if depth >= self.max_depth:
+            return [cont(UNK, path, env)]
+
+        def after_next(rv, sp, e, tr):
+            if not isinstance(rv, Adt):
+                return [cont(UNK, sp, e)]
+            if rv.variant == 0 or n == 0:
+                return [cont(rv, sp, e)]
+            return self._nth(fn, e, bb, t, sp, depth, cont, tr(itref), next_fn, n - 1)
+
+        return self._inline_multi(fn, env, bb, t, path, depth, next_fn, [itref], after_next)
+
     def _local_next(self, self_ty):
         """The local `Iterator::next` implementation for an iterator type, if any."""
         base = self_ty.split("<")[0]
@@ -1497,6 +1521,12 @@ class Sim:
             items = [e if len(x.fields) > 2 else Ref([e], 0, ()) for e in elems]
             x.fields[1] = i + len(elems)
             return self._fold(fn, env, bb, t, path, depth, cont, items, 0, args[1], args[2])
+        if p == "std::iter::Iterator::nth" and isinstance(f, int) and 0 <= f <= 8 and isinstance(x, Adt) \
+                and isinstance(args[0], Ref):
+            substs = t["callee"].get("substs") or []
+            nf = self._local_next(substs[0]) if substs else None
+            if nf is not None:
+                return self._nth(fn, env, bb, t, path, depth, cont, args[0], nf, f)
         if p == "std::iter::Iterator::skip" and isinstance(f, int) and 0 <= f <= 4 and isinstance(x, Adt):
             substs = t["callee"].get("substs") or []
             nf = self._local_next(substs[0]) if substs else None
